@@ -164,6 +164,11 @@ bool parseOpts(char c, vpak_t *res)
     case 1:
         if (res->ctype == -1)
         {
+            if (!check_ctype(atoi(optarg)))
+            {
+                strlog("Error :", "Wrong ctype");
+                return false;
+            }
             res->ctype = atoi(optarg);
             printCryptMode(res->ctype);
         }
@@ -176,6 +181,11 @@ bool parseOpts(char c, vpak_t *res)
     case 2:
         if (res->htype == -1)
         {
+            if (!check_htype(atoi(optarg)))
+            {
+                strlog("Error :", "Wrong htype");
+                return false;
+            }
             res->htype = atoi(optarg);
             printHashMode(res->htype);
         }
